@@ -194,6 +194,14 @@ func (st *State) compWF(key string, t Term) {
 	if strings.HasPrefix(key, "MC:") {
 		st.assume(mkEq(mkSelect(t, tZero), tZero))
 	}
+	if strings.HasPrefix(key, "MV:") {
+		// modelling invariant: outside the domain the value row holds the zero value
+		dk := "MD:" + strings.TrimPrefix(key, "MV:")
+		ks := keySortOf(elemSortOf(t.Sort))
+		dom := st.comp(dk, arraySort(SInt, arraySort(ks, SBool)))
+		zero := zeroOfSort(elemSortOf(elemSortOf(t.Sort)))
+		st.emit(fmt.Sprintf("(assert (forall ((mz Int) (kz %s)) (! (=> (not (select (select %s mz) kz)) (= (select (select %s mz) kz) %s)) :pattern ((select (select %s mz) kz)) :qid |mapzero.%s|)))", ks, dom.S, t.S, zero.S, t.S, strings.ReplaceAll(key, "|", "!")))
+	}
 	// heap well-formedness: every reference stored in the heap is allocated
 	if kind := compRefKind[key]; kind != 0 && st.next.S != "" {
 		var vars []string
@@ -221,7 +229,7 @@ func (st *State) compWF(key string, t Term) {
 			extra = fmt.Sprintf(" (<= 0 (soff %s)) (<= 0 (slen %s)) (<= (slen %s) (scap %s)) (=> (= (sarr %s) 0) (= (scap %s) 0))", leaf.S, leaf.S, leaf.S, leaf.S, leaf.S, leaf.S)
 		}
 		// only allocated objects (first index below the allocation counter) are constrained
-		st.emit(fmt.Sprintf("(assert (forall (%s) (! (=> (< wf0 %s) (and (>= %s 0) (<= (+ (* %d %s) %d) %s)%s)) :pattern (%s))))", strings.Join(vars, " "), st.next.S, r.S, allocFactor, r.S, allocFactor, st.next.S, extra, leaf.S))
+		st.emit(fmt.Sprintf("(assert (forall (%s) (! (=> (< wf0 %s) (and (>= %s 0) (<= (+ (* %d %s) %d) %s)%s)) :pattern (%s) :qid |wf.%s|)))", strings.Join(vars, " "), st.next.S, r.S, allocFactor, r.S, allocFactor, st.next.S, extra, leaf.S, strings.ReplaceAll(key, "|", "!")))
 	}
 }
 
